@@ -7,9 +7,9 @@
 From SigM Require Import Base Handover.
 From SigP Require Import HandoverProofs.
 From Coq Require String.
-From SigM Require LockTrace.
+From SigM Require LockTrace LockOrder.
 From SigG Require GenLocks.
-From SigP Require LockTraceProofs GenLocksCheck GenLocksProofs.
+From SigP Require LockTraceProofs LockOrderProofs GenLocksCheck GenLocksProofs.
 Open Scope nat_scope.
 
 (* A query returns every block that was flushed before the query began EXACTLY ONCE, for record
@@ -131,3 +131,20 @@ Print Assumptions C11_lock_discipline.
 Theorem C11_lock_discipline_covers_handover :
   forallb GenLocksProofs.lk_covered GenLocksProofs.lk_c11_functions = true.
 Proof. exact GenLocksProofs.lk_c11_functions_covered. Qed.
+
+(* ---- lock ORDER: at every acquisition on every trace of an unlisted function, each mutex already held precedes the
+   acquired one in GenLocksCheck.lk_order_graph (all nestings of all unlisted functions); that graph carries a ranking that
+   increases along every edge (checked on the regenerated skeletons on every run), so goroutines running those functions
+   cannot wait for each other in a ring.  (The only cycle of the unchanged tree, rqsLock <-> arqMapLock, is closed by
+   RestartQuery, a listed exception.) *)
+Theorem C11_lock_acquisitions_follow_one_order : forall (name : String.string) (s : LockTrace.stm),
+  In (name, s) GenLocks.lk_all -> GenLocksCheck.allowed name GenLocksCheck.lk_exceptions = [] ->
+  forall t1 k l t2 o h, LockTrace.exec s (t1 ++ (k, l) :: t2) o -> LockOrder.is_acquire k = true ->
+  LockTrace.mrun [] t1 = inl h -> LockOrder.justified GenLocksCheck.lk_order_graph (h, l).
+Proof. exact GenLocksProofs.lk_acquisitions_follow_the_order. Qed.
+Print Assumptions C11_lock_acquisitions_follow_one_order.
+
+Theorem C11_no_ring_of_waiting_goroutines : forall ws : list LockOrder.waiter,
+  Forall (LockOrder.justified GenLocksCheck.lk_order_graph) ws -> Forall (fun w => fst w <> []) ws -> ~ LockOrder.ring ws.
+Proof. exact GenLocksProofs.lk_no_ring. Qed.
+Print Assumptions C11_no_ring_of_waiting_goroutines.
